@@ -485,6 +485,11 @@ impl C17 {
 pub fn directed() -> Vec<(&'static str, Vec<&'static str>)> {
     vec![
         ("retained-int", vec!["stel a = 100", "a"]),
+        ("function-replaced-by-a-line-without-declarations", vec!["stel f = functie(x) { x + 1 }", "stel g = functie(x) { x - 1 }", "f = functie(x) { x * 2 }", "g(21)", "f(21)", "stel h = functie(x) { x * x }", "[f(3), g(3), h(3)]"]),
+        ("function-stored-into-array-by-a-line-without-declarations", vec!["stel fs = [0, 0]", "fs[0] = functie(x) { x + 100 }", "1 + 1", "stel k = fs[0]", "k(1)"]),
+        ("function-passed-and-kept-by-an-earlier-function", vec!["stel bewaar = [0]", "functie houd(f) { bewaar[0] = f; 0 }", "houd(functie(x) { x + 7 })", "2 + 2", "stel terug = bewaar[0]", "terug(1)"]),
+        ("blank-and-comment-lines-between", vec!["stel s = \"hallo \" + \"wereld\"", "stel l = [1.5, \"twee\", [3.5]]", "// niets", "{}", "s", "l", "   ", "[s, l]"]),
+        ("heap-stored-then-runtime-failure", vec!["stel a = [0, 0]", "stel b = 0", "a[0] = 2.5 * 1.0; b = \"x\" + \"y\"; [1][5]; b = 0", "[a, b]", "stel c = 0.75", "[a, b, c]"]),
         ("empty-block-value-then-failure", vec!["stel a = 1", "als ja { }", "stel b = 2", "onbekend", "b", "stel c = 3", "[a, b, c]"]),
         ("empty-else-value-then-failure", vec!["stel r = als nee { 1 } anders { }", "stel b = 2", "stop", "[r, b]"]),
         ("empty-loop-then-failure", vec!["zolang nee { }", "stel b = 2", "{ stel c = 3; onbekend }", "b", "stel b = 4", "b"]),
@@ -525,6 +530,8 @@ fn random_session(r: &mut Rng) -> Vec<Line> {
     let mut ints: Vec<String> = vec![];
     let mut arrs: Vec<String> = vec![];
     let mut strs: Vec<String> = vec![];
+    let mut fns: Vec<String> = vec![];
+    let mut lines_text: Vec<String> = vec![];
     let mut fresh = 0;
     let mut pending_probe: Option<String> = None;
     for _ in 0..n {
@@ -535,8 +542,41 @@ fn random_session(r: &mut Rng) -> Vec<Line> {
                 ints[r.below(ints.len() as u64) as usize].clone()
             }
         };
-        let k = r.below(37);
+        let k = r.below(46);
         let text = match k {
+            // functions held by globals: declared, replaced by a line that declares nothing, stored into an array, called later
+            37 => {
+                fresh += 1;
+                let name = format!("fn{}", fresh);
+                let t = format!("stel {} = functie(x) {{ x + {} }}", name, r.range(1, 9));
+                fns.push(name);
+                t
+            }
+            38 if !fns.is_empty() => format!("{} = functie(x) {{ x * {} }}", fns[r.below(fns.len() as u64) as usize], r.range(2, 9)),
+            39 if !fns.is_empty() && !arrs.is_empty() => format!("{}[0] = functie(y) {{ y - {} }}; {} = {}[0]; 0", arrs[r.below(arrs.len() as u64) as usize], r.range(1, 9), fns[r.below(fns.len() as u64) as usize], arrs[r.below(arrs.len() as u64) as usize]),
+            40 | 41 if !fns.is_empty() => format!("{}({})", fns[r.below(fns.len() as u64) as usize], r.range(0, 20)),
+            // lines that compile to nothing
+            42 => (*r.pick(&["// alleen commentaar", "{}", "{ }", "   ", "// één 💖"])).to_string(),
+            // a line that stores fresh heap values into globals and then fails at run time (what it stored stays stored)
+            43 if !arrs.is_empty() => {
+                let a = &arrs[r.below(arrs.len() as u64) as usize];
+                fresh += 1;
+                format!("{}[0] = [{}.5 * 2.0, \"vers\" + \"{}\"]; stel vers{} = string({}) + \"!\"; [1][5]; {}[1] = 0", a, r.range(0, 9), fresh, fresh, r.range(10, 99), a)
+            }
+            44 if !ints.is_empty() => {
+                fresh += 1;
+                format!("stel h{} = [{} * 1.5, string({})]; {} = {} / 0", fresh, pick_int(r, &ints), pick_int(r, &ints), pick_int(r, &ints), pick_int(r, &ints))
+            }
+            45 => {
+                // read back what lines of kind 43 / 44 stored
+                let mut items: Vec<String> = arrs.iter().take(3).cloned().collect();
+                for k in 1..=fresh {
+                    if lines_text.iter().any(|t: &String| t.contains(&format!("stel h{} =", k))) {
+                        items.push(format!("h{}", k));
+                    }
+                }
+                format!("[{}]", items.join(", "))
+            }
             // a global string: written through (successfully, and in ways that must fail and change nothing), read back
             33 => {
                 fresh += 1;
@@ -662,6 +702,7 @@ fn random_session(r: &mut Rng) -> Vec<Line> {
         };
         // now and then cut the line after k instructions
         let budget = if r.chance(1, 6) { Some(r.below(40)) } else { None };
+        lines_text.push(text.clone());
         lines.push(Line { text, budget });
     }
     lines
@@ -767,8 +808,12 @@ impl C17 {
                 if !matches!(o.outcome, Outcome::Value(_)) {
                     continue;
                 }
-                program.push_str(&lines[i].text);
-                program.push_str(";\n");
+                // (a line of nothing but blanks adds nothing to the one program; a separator on its own would be an empty
+                //  statement, which the grammar does not have)
+                if !lines[i].text.trim().is_empty() {
+                    program.push_str(&lines[i].text);
+                    program.push_str(";\n");
+                }
                 let whole = obs::eval_observed(&program, &obs::ObsCfg::default());
                 st.count("metamorphic-comparisons");
                 let new_out: Vec<String> = whole.output.iter().skip(printed).cloned().collect();
